@@ -8,6 +8,7 @@ import os
 from lib.base import SuiteResult, rng_for, jdump, VERIF
 from gen import session_gen as SG
 import impl_session as S
+from oracles import Monitor
 
 CONFIGS = [
     {},
@@ -88,13 +89,19 @@ class Pair(object):
         self.ok = True
         self.skip = False
         self.last = None
+        full = dict(S.DEFAULT_CFG)
+        full.update(conf)
+        self.mon = Monitor(res, conf, full)
 
     def step(self, ev):
         ev = strip(ev)
         io = self.sim.step(ev)
-        mo = self.driver.call({'op': 'sess.ev', 'ev': ev})
         self.trace.append(ev)
         self.last = io
+        self.mon.step(ev, io, self.sim)
+        if not self.ok or self.skip:
+            return io          # model and implementation already diverged: keep driving the implementation only
+        mo = self.driver.call({'op': 'sess.ev', 'ev': ev})
         if any(o == ['unmodelled'] for o in mo.get('outs', [])):
             self.skip = True
             self.res.stats.skipped += 1
@@ -163,6 +170,7 @@ def random_walk(conf, driver, res, r, pool, length, bias):
     for _ in range(length):
         cands = candidate_events(p.sim, pool)
         weights = []
+        pending = any(c.state == 'connecting' for c in p.sim.world.connectors)
         for ev in cands:
             k = ev['k']
             lab = ev.get('label', '')
@@ -182,6 +190,8 @@ def random_walk(conf, driver, res, r, pool, length, bias):
                 wgt = 0.4
             elif k == 'connfail':
                 wgt = 0.8
+            if pending and (k in ('start', 'stop') or (k == 'fire' and ev.get('t') == 'retry')):
+                wgt *= 0.05      # the known multi-connection findings: visit them, but rarely
             weights.append(wgt)
         ev = r.choices(cands, weights)[0]
         if ev['k'] == 'chunk' and r.random() < 0.25:
